@@ -46,8 +46,14 @@ def same(a, b):
     return a is b or (type(a) is type(b) and a == b)
 
 
+class Sentinel(object):
+    """an attribute value with identity-only equality"""
+
+
 def sym_value(i, j, vrot):
-    k = (i + j + vrot) % 4
+    k = (i + j + vrot) % 5
+    if k == 4:
+        return Sentinel()
     if k == 0:
         return nondet_sym(int, "iv%d_%d" % (i, j))
     if k == 1:
@@ -62,7 +68,7 @@ def pick_tree(cfg, symbolic_values=True):
     pv = pick_parent_vector(n)
     parent, children = model_from_pv(pv)
     layout = nondet_int(0, 6, "attr_layout")  # which nodes get how many attributes, which keys, which value kinds
-    rot, k0, vrot = layout % 3, layout % len(KEYS), layout % 4
+    rot, k0, vrot = layout % 3, layout % len(KEYS), layout % 5
     attrs = []
     for i in range(n):
         d = OrderedDict()
@@ -362,6 +368,25 @@ def json_body(cfg):
         r = jcheck_tree(root, children, attrs, s, U, 0, None, None)
         if r:
             return {"why": "custom dictimporter: " + r, "pv": pv}
+        # read() consumes the handle from its CURRENT position and needs nothing but .read()
+        fh = io.StringIO("# header line\n" + full)
+        fh.readline()
+        root = JsonImporter().read(fh)
+        r = jcheck_tree(root, children, attrs, s, AnyNode, 0, None, None)
+        if r:
+            return {"why": "read() from a handle positioned after a header line: " + r, "pv": pv}
+
+        class Pipe(object):
+            def __init__(self, text):
+                self._fh = io.StringIO(text)
+
+            def read(self, *a):
+                return self._fh.read(*a)
+
+        root = JsonImporter().read(Pipe(full))
+        r = jcheck_tree(root, children, attrs, s, AnyNode, 0, None, None)
+        if r:
+            return {"why": "read() from a non-seekable stream: " + r, "pv": pv}
         root = JsonImporter(parse_int=float).import_(json.dumps({"v": 3}))
         if type(root.v) is not float:
             return {"why": "json.loads keyword arguments not forwarded by JsonImporter"}
